@@ -1,6 +1,7 @@
 (* Props/C06.v — Parallels HDS / plain images: every byte range reads as the guest-visible content. *)
 From Coq Require Import ZArith List.
 From DH Require Import Base.Plan Base.Table Model.Hds Proofs.Hds.
+From DH Require Model.Chain Proofs.Chain Proofs.Layers Proofs.Storage Model.Hdd Proofs.Hdd.
 Open Scope Z_scope.
 
 Definition produced_ok' (h : hds) (off len T : Z) : Prop :=
@@ -28,6 +29,23 @@ Theorem C06_progress :
   0 <= off -> len < Z.of_nat fuel -> hds_read h fuel off len <> Fuel.
 Proof. exact hds_read_progress. Qed.
 Print Assumptions C06_progress.
+
+(* the .hdd directory: storages laid back to back, each with its own chain of image layers; every byte comes from
+   the topmost layer of the chain of the storage that holds its sector, zero when no layer of THAT chain has it
+   (HDS images are such layers for every allocation table: Proofs/Layers.hds_layer_ok) *)
+Theorem C06_hdd_read_correct :
+  forall hs s0 sector count,
+  Proofs.Hdd.hdd_ok hs -> Proofs.Storage.slaid (Proofs.Hdd.ss_of hs) s0 -> s0 <= sector -> 0 <= count ->
+  sector + count <= Proofs.Storage.s_end (Proofs.Hdd.ss_of hs) s0 ->
+  Model.Hdd.hdd_read hs (sector * 512) (count * 512) =
+  Ok (map (Model.Hdd.hdd_src hs 0) (zseq (sector * 512) (count * 512))).
+Proof. exact Proofs.Hdd.hdd_read_correct. Qed.
+Print Assumptions C06_hdd_read_correct.
+
+Theorem C06_hds_is_layer :
+  forall h, 0 < h_cs h -> hds_wf h -> Proofs.Chain.layer_ok (h_size h) 1 (Proofs.Layers.hds_layer h).
+Proof. exact Proofs.Layers.hds_layer_ok. Qed.
+Print Assumptions C06_hds_is_layer.
 
 Example C06_nonvacuous : hds_wf ex_hds.
 Proof. exact ex_hds_wf. Qed.
